@@ -56,6 +56,13 @@ pub(crate) type FinalSignature = cranelift::prelude::Signature;
 
 pub use compiler::comptime::eval_comptime_blocks;
 
+#[cfg(capy_verif)]
+pub mod verif_hooks {
+    pub use crate::convert::verif_hooks as convert;
+    pub use crate::layout::verif_hooks as layout;
+    pub use crate::mangle::verif_hooks as mangle;
+}
+
 pub fn compile_jit(
     verbosity: Verbosity,
     entry_point: ConcreteGlobalLoc,
